@@ -21,7 +21,7 @@ FAILFAST_OPS = ["loop", "updateChannel", "removeChannel", "hasChannel", "pool_st
 # scenarios the quick tier may skip when the machine is busy (none by default: all run in parallel in ~2 s)
 SLOW = {"client_stop", "client_flags_vs_loop", "client_disconnect_flag_vs_loop", "connector_flag_vs_loop"}
 # which scenarios are the direct witnesses of which member (used to look harder for a new static violation)
-TSAN_ENV = {"TSAN_OPTIONS": "halt_on_error=1 exitcode=66 report_thread_leaks=0 report_signal_unsafe=0 history_size=4 "
+TSAN_ENV = {"TSAN_OPTIONS": "halt_on_error=0 exitcode=66 report_thread_leaks=0 report_signal_unsafe=0 history_size=4 "
                             "second_deadlock_stack=1"}
 
 
@@ -138,29 +138,34 @@ FRAME = re.compile(r"^\s+#(\d+) (.+?) (/[^\s:]+):(\d+)(?::\d+)? \(")
 SECTION = re.compile(r"^  (Write|Read|Previous write|Previous read|Atomic write|Atomic read|Previous atomic write|Previous atomic read) of size (\d+)")
 
 
-def parse_tsan(stderr):
-    """first report -> {'kind':..., 'text':..., 'stacks': [(what, [(func, file, line)...]), ...]} or None"""
-    m = re.search(r"WARNING: ThreadSanitizer: ([^\(\n]+)", stderr)
-    if not m:
-        if "ThreadSanitizer:DEADLYSIGNAL" in stderr or "ERROR: ThreadSanitizer" in stderr:
-            return {"kind": "crash", "text": stderr[:6000], "stacks": []}
-        return None
-    start = stderr.rfind("==================", 0, m.start())
-    end = stderr.find("==================", m.end())
-    text = stderr[start if start >= 0 else m.start(): end + 18 if end >= 0 else len(stderr)]
-    stacks, cur = [], None
-    for line in text.split("\n"):
-        s = SECTION.match(line)
-        if s:
-            cur = (s.group(1), [])
-            stacks.append(cur)
+def parse_tsan_all(stderr):
+    """every report of a run -> [{'kind':..., 'text':..., 'stacks': [(what, [(func, file, line)...]), ...]}]"""
+    reps = []
+    for block in stderr.split("=================="):
+        m = re.search(r"WARNING: ThreadSanitizer: ([^\(\n]+)", block)
+        if not m:
             continue
-        f = FRAME.match(line)
-        if f and cur is not None:
-            cur[1].append((f.group(2), f.group(3), int(f.group(4))))
-        elif cur is not None and line.strip() == "":
-            cur = None
-    return {"kind": m.group(1).strip(), "text": text, "stacks": stacks}
+        stacks, cur = [], None
+        for line in block.split("\n"):
+            s = SECTION.match(line)
+            if s:
+                cur = (s.group(1), [])
+                stacks.append(cur)
+                continue
+            f = FRAME.match(line)
+            if f and cur is not None:
+                cur[1].append((f.group(2), f.group(3), int(f.group(4))))
+            elif cur is not None and line.strip() == "":
+                cur = None
+        reps.append({"kind": m.group(1).strip(), "text": "==================" + block + "==================", "stacks": stacks})
+    if not reps and ("ThreadSanitizer:DEADLYSIGNAL" in stderr or "ERROR: ThreadSanitizer" in stderr):
+        reps.append({"kind": "crash", "text": stderr[:6000], "stacks": []})
+    return reps
+
+
+def parse_tsan(stderr):
+    r = parse_tsan_all(stderr)
+    return r[0] if r else None
 
 
 def short_report(rep, maxframes=12):
@@ -317,26 +322,29 @@ def run(chk, replay=None):
     ran = set()
     for (name, rnd, rc, so, se, secs) in results:
         chk.cov["evaluations"] += 1
-        rep = parse_tsan(se)
-        if rep is None:
+        reps = parse_tsan_all(se)
+        if not reps:
             if rc == 0 and ("scenario %s done" % name) in so:
                 ran.add(name)
             else:
                 scen_fail.append((name, rc, (se or so)[-1500:]))
             continue
         ran.add(name)
-        common, per = map_report(rep, idx)
-        methods = set(m for hit in per for (c, f, m, k) in hit)
-        if rep["kind"] != "data race" or not common:
-            key = ("?", rep["kind"] + ":" + ";".join("%s:%d" % (fl, ln) for (_, fr) in rep["stacks"][:2] for (fn, fl, ln) in fr[:1]))
-            reports.setdefault(key, {"scenario": name, "rep": rep, "methods": methods, "count": 0})["count"] += 1
-            continue
-        for cf in sorted(common):
-            d = reports.setdefault(cf, {"scenario": name, "rep": rep, "methods": set(), "count": 0, "all": []})
-            ms = set(m for hit in per for (c, f, m, k) in hit if (c, f) == cf)
-            d["methods"] |= ms
-            d["all"].append((name, rep, ms))
-            d["count"] += 1
+        if ("scenario %s done" % name) not in so:
+            scen_fail.append((name, rc, (se or so)[-1500:]))
+        for rep in reps:
+            common, per = map_report(rep, idx)
+            methods = set(m for hit in per for (c, f, m, k) in hit)
+            if rep["kind"] != "data race" or not common:
+                key = ("?", rep["kind"] + ":" + ";".join("%s:%d" % (fl, ln) for (_, fr) in rep["stacks"][:2] for (fn, fl, ln) in fr[:1]))
+                reports.setdefault(key, {"scenario": name, "rep": rep, "methods": methods, "count": 0})["count"] += 1
+                continue
+            for cf in sorted(common):
+                d = reports.setdefault(cf, {"scenario": name, "rep": rep, "methods": set(), "count": 0, "all": []})
+                ms = set(m for hit in per for (c, f, m, k) in hit if (c, f) == cf)
+                d["methods"] |= ms
+                d["all"].append((name, rep, ms))
+                d["count"] += 1
     chk.cov["tsan"] = {"scenarios": len(set(n for n, _ in scen)), "runs": len(results), "wall_s": round(t2 - t1, 1),
                        "reports": sorted("%s::%s" % k if k[0] != "?" else k[1] for k in reports)}
 
@@ -392,15 +400,11 @@ def run(chk, replay=None):
             extra += 1
             for (name, rnd, rc, so, se, secs) in run_scenarios(tsan, [n for n, _ in scen], 1):
                 chk.cov["evaluations"] += 1
-                rep = parse_tsan(se)
-                if rep is None:
-                    if rc != 0:
-                        scen_fail.append((name, rc, (se or so)[-1500:]))
-                    continue
-                common, per = map_report(rep, idx)
-                for cf in common:
-                    if cf not in reports:
-                        reports[cf] = {"scenario": name, "rep": rep, "methods": set(m for hit in per for (c, f, m, kk) in hit), "count": 1}
+                for rep in parse_tsan_all(se):
+                    common, per = map_report(rep, idx)
+                    for cf in common:
+                        if cf not in reports:
+                            reports[cf] = {"scenario": name, "rep": rep, "methods": set(m for hit in per for (c, f, m, kk) in hit), "count": 1}
             need -= set(reports)
     for (k, v) in static_bad:
         text = viol_text(recs, v, summary)
@@ -413,7 +417,11 @@ def run(chk, replay=None):
             chk.violation(p, "C08 violated: %s; ThreadSanitizer witness in scenario %s" % (text, w["scenario"]))
         else:
             ffw = [b for b in ff_bad if v[3] in ("nofailfast", "call")]
-            sfw = [s for s in scen_fail if v[3] == "call"]
+            sfw, _seen = [], set()
+            for s_ in scen_fail:
+                if v[3] == "call" and s_[0] not in _seen:
+                    _seen.add(s_[0])
+                    sfw.append(s_)
             if ffw or sfw:
                 items = ["static %s" % k] + ["failfast %s" % b[0] for b in ffw] + ["scenario %s" % s[0] for s in sfw]
                 body = "\n".join([b[1] + "\n" + b[2] for b in ffw] + ["scenario %s rc=%s\n%s" % s for s in sfw])
